@@ -457,6 +457,41 @@ pub fn run(opts: &Opts, out: &mut Emitter, c04: bool) {
             let q = Q { name: "src".into(), addr: Some("A"), min: Some(min), refs: vec![], many: true, collateral: false };
             emit(out, "many-stress", &st, &[q], false);
         }
+        // two tokens held by different UTxOs of one address: no single UTxO matches every constraint,
+        // only the union of the per-constraint matches covers the target
+        for _ in 0..opts.n * 3 {
+            let mut st = vec![];
+            let k = 2 + r.below(4) as usize;
+            let (mut tx, mut ty, mut tl) = (0i128, 0i128, 0i128);
+            for i in 0..k {
+                let l = r.range(1, 6) as i128;
+                let (x, y) = match r.below(4) {
+                    0 => (r.range(1, 5) as i128, 0),
+                    1 => (0, r.range(1, 5) as i128),
+                    2 => (0, 0),
+                    _ => (r.range(0, 2) as i128, r.range(0, 2) as i128),
+                };
+                let at_a = !r.chance(1, 6);
+                if at_a {
+                    tx += x;
+                    ty += y;
+                    tl += l;
+                }
+                st.push(U { txid: (r.below(200) + 1) as u8, index: i as u32, addr: if at_a { "A" } else { "B" }, assets: vec![("L", l), ("X", x), ("Y", y)] });
+            }
+            let mut min = vec![];
+            if tx > 0 {
+                min.push(("X", r.range(1, tx as i64) as i128));
+            }
+            if ty > 0 {
+                min.push(("Y", r.range(1, ty as i64) as i128));
+            }
+            if r.chance(1, 2) && tl > 0 {
+                min.push(("L", r.range(1, tl as i64) as i128));
+            }
+            let q = Q { name: "src".into(), addr: if r.chance(5, 6) { Some("A") } else { None }, min: Some(min), refs: vec![], many: r.chance(4, 5), collateral: false };
+            emit(out, "two-token-stress", &st, &[q], false);
+        }
         // random: up to 50 UTxOs (and 51..80 to cross the window), large amounts
         for k in 0..opts.n {
             let size = if k % 5 == 4 { 51 + r.below(30) as usize } else { 1 + r.below(50) as usize };
@@ -490,6 +525,39 @@ pub fn run(opts: &Opts, out: &mut Emitter, c04: bool) {
             qs.push(random_query(&mut r, "collateral", &st, true));
         }
         emit(out, "multi", &st, &qs, true);
+    }
+    // a block whose target needs padding from loose matches (token + lovelace, several UTxOs), next to
+    // blocks that take the plain-lovelace UTxOs of the same party — in both name orders
+    for _ in 0..rounds / 3 {
+        let mut st = vec![];
+        let n_plain = 1 + r.below(3) as usize;
+        let n_tok = 1 + r.below(2) as usize;
+        for i in 0..n_plain {
+            st.push(U { txid: (r.below(200) + 1) as u8, index: i as u32, addr: "A", assets: vec![("L", r.range(3, 9) as i128)] });
+        }
+        for i in 0..n_tok {
+            st.push(U { txid: (r.below(200) + 1) as u8, index: (10 + i) as u32, addr: "A", assets: vec![("L", r.range(1, 3) as i128), ("X", r.range(1, 4) as i128)] });
+        }
+        if r.chance(1, 3) {
+            st.push(U { txid: (r.below(200) + 1) as u8, index: 20, addr: "B", assets: vec![("L", 9), ("X", 9)] });
+        }
+        let tok_total: i128 = st.iter().filter(|u| u.addr == "A").map(|u| u.assets.iter().filter(|a| a.0 == "X").map(|a| a.1).sum::<i128>()).sum();
+        let fuel = Q { name: String::new(), addr: Some("A"), min: Some(vec![("L", r.range(1, 8) as i128)]), refs: vec![], many: r.chance(1, 2), collateral: false };
+        let tokens = Q { name: String::new(), addr: Some("A"), min: Some(vec![("X", r.range(1, tok_total.max(1) as i64) as i128), ("L", r.range(3, 12) as i128)]), refs: vec![], many: true, collateral: false };
+        let mut qs = vec![];
+        let (first, second) = if r.chance(2, 3) { (fuel, tokens) } else { (tokens, fuel) };
+        let mut a = first;
+        a.name = "b0".into();
+        qs.push(a);
+        if r.chance(1, 3) {
+            let mut mid = random_query(&mut r, "b1", &st, false);
+            mid.name = "b1".into();
+            qs.push(mid);
+        }
+        let mut b = second;
+        b.name = "b2".into();
+        qs.push(b);
+        emit(out, "multi-padding", &st, &qs, true);
     }
 }
 
